@@ -874,8 +874,19 @@ def _is_sym_pow(x) -> bool:
     return x[0] == "b" and x[1] == "pow" and not (x[3][0] == "n" and x[3][1] >= 0)
 
 
-def _is_quotient_by_lattice(x) -> bool:
-    return x[0] == "b" and x[1] in ("div", "fdiv", "mod") and _has(x[3], _is_lattice)
+def _is_quotient_with_lattice(x) -> bool:
+    return x[0] == "b" and x[1] in ("div", "fdiv", "mod") and (_has(x[2], _is_lattice) or _has(x[3], _is_lattice))
+
+
+def _is_mod_of_product_with_mod(x) -> bool:
+    """a % or // (or floor of a quotient) whose dividend contains a product with a % / // inside"""
+    if x[0] == "b" and x[1] in ("mod", "fdiv"):
+        dividend = x[2]
+    elif x[0] == "u" and x[1] in ("floor", "ceil") and x[2][0] == "b" and x[2][1] == "div":
+        dividend = x[2][2]
+    else:
+        return False
+    return _has(dividend, lambda y: y[0] == "b" and y[1] == "mul" and _has(y, lambda z: z[0] == "b" and z[1] in ("mod", "fdiv")))
 
 
 def sympy_defect_locus(t, env):
@@ -895,12 +906,17 @@ def sympy_defect_class(t, env) -> str:
     """Known upstream SymPy 1.14 defect classes, each reproduced with SymPy alone:
       Mod-of-power           Mod(2**M, 6) == 0 (gcd extraction in Mod.eval); also through floor(x/c), which
                              SymPy rewrites with Mod: a power with a non-literal exponent under % // floor ceiling
-      lattice-over-quotient  Max(3, 3/Max(x, z)) == 3/Max(x, z): a Max/Min that has an operand dividing by a Max/Min
+      Mod-of-product-with-Mod  Mod(Mod(b, 7)*d, 8) becomes Mod(d*Mod(b, 7)**2, 8) (the inner Mod is squared): a % or //
+                             whose dividend contains a product with a % or // inside
+      lattice-over-quotient  Max(3, 3/Max(x, z)) == 3/Max(x, z), Min(1, Max(a, b)/5) == 1: a Max/Min that has an operand
+                             containing a quotient of / by a Max/Min
     anything else is 'unclassified' and is NOT covered by a known finding."""
     locus = sympy_defect_locus(t, env)
     if _has(locus, _is_sym_pow) and _has(locus, lambda x: x[0] in "ub" and x[1] in ("mod", "fdiv", "floor", "ceil")):
         return "Mod-of-power"
-    if _has(locus, lambda x: _is_lattice(x) and _has(x, _is_quotient_by_lattice)):
+    if _has(locus, _is_mod_of_product_with_mod):
+        return "Mod-of-product-with-Mod"
+    if _has(locus, lambda x: _is_lattice(x) and _has(x, _is_quotient_with_lattice)):
         return "lattice-over-quotient"
     return "unclassified"
 
@@ -1371,18 +1387,26 @@ class TreeCase:
             want = [real_eval(d, env), [7, 1], real_eval(ir.SymbolicDim("K"), env), real_eval(other, env), ("symbolic", None)]
             if dims != want:
                 P.fail("shape:evaluate", f"Shape.evaluate({env}) = {dims}, dimension-wise {want}", self.case_obj)
-            if self.simplify:
-                sv = [x if isinstance(x, int) else x.value for x in shp.simplify().dims]
-                wv = [d.simplify().value, 7, "K", other.simplify().value, None]
-                if sv != wv:
-                    P.fail("shape:simplify", f"Shape.simplify() = {sv}, dimension-wise {wv}", self.case_obj)
             if shp.free_symbols() != frozenset(d.free_symbols() | {"K"}):
                 P.fail("shape:free_symbols", f"Shape.free_symbols() = {sorted(shp.free_symbols())}", self.case_obj)
+
+        def _simp():
+            # Shape.simplify is dimension-wise SymbolicDim.simplify: same text, or the same exception
+            own = attempt(lambda: d.simplify().value)
+            got = attempt(lambda: [x if isinstance(x, int) else x.value for x in shp.simplify().dims])
+            if own[0] == "ok":
+                wv = [own[1], 7, "K", other.simplify().value, None]
+                if got != ("ok", wv):
+                    P.fail("shape:simplify", f"Shape.simplify() = {got}, dimension-wise {wv}", self.case_obj)
+            elif got != own:
+                P.fail("shape:simplify", f"Shape.simplify() = {got}, the dimension's own simplify() {own}", self.case_obj)
 
         st, res = attempt(_go)
         P.count("shape=" + ("done" if st == "ok" else res))
         if st != "ok" and self.ref[0] is not None:
-            P.fail("shape:raises", f"Shape.evaluate/simplify raises ({res}) although the dimension evaluates", self.case_obj)
+            P.fail("shape:raises", f"Shape.evaluate/free_symbols raises ({res}) although the dimension evaluates", self.case_obj)
+        if self.simplify:
+            _simp()
 
     def finish(self, P: Part, outs):
         t = self.tree
